@@ -23,15 +23,16 @@ WEAK = ["NoPruneOnDigestChange", "DigestIgnoresVars", "InputsIgnoreDep", "PrepIg
 
 
 def replay_task(arg):
-    i, hist, origin, release, jobs, cache = arg
+    i, hist, origin, release, jobs, cache = arg[:6]
+    define = arg[6] if len(arg) > 6 else False
     work = common.scratch("vf-c01-")
     try:
-        r = bc.BehaviourReplay(hist, work, bc.Oracle(cache), release=release, jobs=jobs).run()
+        r = bc.BehaviourReplay(hist, work, bc.Oracle(cache), release=release, jobs=jobs, define=define).run()
     finally:
         shutil.rmtree(work, ignore_errors=True)
     return {"i": i, "origin": origin, "violations": r.violations, "drift": r.drift, "invocations": r.invocations,
             "nontrivial": sorted(r.nontrivial), "shape": bc.shape_of(hist), "oracle_builds": r.oracle.builds,
-            "release": release, "jobs": jobs}
+            "release": release, "jobs": jobs, "define": define}
 
 
 def replay_file(path):
@@ -39,7 +40,8 @@ def replay_file(path):
     import json
     d = json.load(open(path))["detail"]
     cache = common.scratch("vf-c01-oracle-")
-    r = replay_task((0, d["hist"], d.get("origin", "replay"), d.get("mode") == "release", d.get("jobs", 1), cache))
+    r = replay_task((0, d["hist"], d.get("origin", "replay"), d.get("mode") == "release", d.get("jobs", 1), cache,
+                     bool(d.get("define"))))
     for sig, detail in r["violations"]:
         print("VIOLATION property=%s replay=%s" % (PROP, path))
         print("  signature: %s" % sig)
@@ -63,7 +65,7 @@ def main():
     rep.add_tlc(res, "BobBuild exhaustive, no aborts")
     if res.violated:
         rep.violation("model:" + res.violated, {"cex": [c[0] for c in res.cex]})
-    tlc.require_coverage(res, [x for x in ACTIONS if x not in ("Kill", "BuRunFail", "BuRunKilled", "PkRunFail", "PkRunKilled",
+    tlc.require_coverage(res, [x for x in ACTIONS if x not in ("Kill", "BuRunFail", "BuRunKilled", "PkRunFail", "PkRunKilled", "CoRunFail", "CoRunKilled",
                                                               "PrepInval", "BuInval")] + [], "BobBuild_c01.cfg")
     behaviours = []
     for w in WEAK:
@@ -84,12 +86,13 @@ def main():
     for i, (h, origin) in enumerate(behaviours):
         release = rng.random() < 0.3
         jobs = 4 if rng.random() < 0.3 else 1
-        tasks.append((i, h, origin, release, jobs, cache))
+        define = rng.random() < 0.3
+        tasks.append((i, h, origin, release, jobs, cache, define))
     with mp.get_context("fork").Pool(common.workers()) as pool:
         for r in pool.imap_unordered(replay_task, tasks):
             rep.traces += 1
             rep.evaluations += r["invocations"] + r["oracle_builds"]
-            rep.nontriv("%s|%s|j%d" % (r["shape"], "release" if r["release"] else "dev", r["jobs"]))
+            rep.nontriv("%s|%s|j%d|D%d" % (r["shape"], "release" if r["release"] else "dev", r["jobs"], r["define"]))
             for d in r["drift"]:
                 rep.model_drift("%s: %s" % (r["shape"], d))
             for sig, detail in r["violations"]:
